@@ -1,16 +1,16 @@
 /-
 C20 — Decompression is total: any bit string gives a buffer or the rule-ID error.
 
-Proved at full strength for rules without compute fields (`C20_total`, `C20_manager_total`): every descriptor
-list that satisfies the decompressor's own type asserts (`CdaTypeOK`), every bit string, either padding side.
-For rules WITH compute fields the statement additionally needs each compute function to be total on the partly
-rebuilt field list at a valid stack position; that part is not yet a theorem and is covered by the
-correspondence stream (truncations, flips, random strings against compute rules on the IPv6, IPv4 and SCTP
-stacks) — see `C20_total_compute_statement` for the exact statement left open, and note the real code's
-`to_bytes(2)` in the length functions overflows for payloads of 65536 bytes or more (outside the quantifier's
-0..2000-bit strings; the model reproduces it).
+`C20_total` / `C20_manager_total`: rules without compute fields, every descriptor list that satisfies the
+decompressor's own type asserts (`CdaTypeOK`), every bit string, either padding side.
+`C20_total_compute` / `C20_manager_total_compute`: rules WITH compute fields (any of the six registered compute
+functions, in any order `compute_function_sort` leaves them), provided each compute field sits at a position where
+its function can run (`ComputeStackOK`, a decidable condition on the rule's id list: only the UDP checksum looks
+at its neighbours — four fields back an IPv4/IPv6 field, and that header's source address before it) and the
+input is short of the 64 KiB datagram limit (the real `to_bytes(2)` of the length functions overflows beyond it;
+the quantifier's strings are 0..2000 bits).
 -/
-import Schc.Proofs.Total
+import Schc.Proofs.ComputeTotal
 
 namespace Schc
 
@@ -35,12 +35,54 @@ theorem C20_manager_total (rules : List Rule) (s : ABuf) (hne : rules ≠ [])
     obtain ⟨d, hd⟩ := decompress_total_nocompute s r (h r hr).1 (h r hr).2
     exact ⟨d, by simp [bind, Except.bind, pure, Except.pure, hd]⟩
 
-/-- the statement left open for compute rules (kept visible; not claimed):
-      ∀ rules with prefix-free IDs, CdaTypeOK descriptors and compute fields in valid stack positions,
-      ∀ s with s.length < 2^19, managerDecompress rules s is `ok _` or `error ruleIDMatchError`. -/
-def C20_total_compute_statement : Prop :=
-  ∀ (rules : List Rule) (s : ABuf), rules ≠ [] → (∀ r ∈ rules, ∀ rf ∈ r.fields, CdaTypeOK rf) → s.length < 2 ^ 19 →
-    (∃ d, managerDecompress rules s = .ok d) ∨ (∃ e, managerDecompress rules s = .error e)
+/-- bare decompress, rules with compute fields at valid stack positions: always a buffer -/
+theorem C20_total_compute (s : ABuf) (r : Rule) (h : ∀ rf ∈ r.fields, CdaTypeOK rf) (hstack : ComputeStackOK r)
+    (hsize : staticBits r.fields + s.length + 32 * r.fields.length + 8 ≤ 2 ^ 19) : ∃ d, decompress s r = .ok d :=
+  decompress_total_compute s r h hstack hsize
+
+/-- through the context manager, any well-formed rule set (compute fields included): a buffer or the rule-ID error -/
+theorem C20_manager_total_compute (rules : List Rule) (s : ABuf) (hne : rules ≠ [])
+    (h : ∀ r ∈ rules, (∀ rf ∈ r.fields, CdaTypeOK rf) ∧ ComputeStackOK r ∧
+      staticBits r.fields + s.length + 32 * r.fields.length + 8 ≤ 2 ^ 19) :
+    (∃ d, managerDecompress rules s = .ok d) ∨ managerDecompress rules s = .error .ruleIDMatchError := by
+  unfold managerDecompress matchSchc
+  cases hf : rules.find? (fun r => decide (r.id.length ≤ s.length) && r.id.beq (s.slice 0 r.id.length)) with
+  | none =>
+    right
+    have : rules.isEmpty = false := by cases rules <;> simp_all
+    simp [this, bind, Except.bind, throw, throwThe, MonadExceptOf.throw]
+  | some r =>
+    left
+    have hr := List.mem_of_find?_eq_some hf
+    obtain ⟨d, hd⟩ := decompress_total_compute s r (h r hr).1 (h r hr).2.1 (h r hr).2.2
+    exact ⟨d, by simp [bind, Except.bind, pure, Except.pure, hd]⟩
+
+/-- each registered compute function alone: total on any field list at a valid position -/
+theorem C20_compute_functions (fid : String) (fs : Compute.Fields) (pos : Nat) (hpos : pos < fs.length)
+    (hok : computeOK (fs.map (·.1)) pos fid = true) (hsz : totalBits fs + 8 ≤ 2 ^ 19) :
+    ∃ v, Compute.compute fid fs pos = .ok v ∧ v.length ≤ 32 :=
+  compute_total fid fs pos hpos hok hsz
+
+/-- non-vacuity for compute rules: the IPv6/UDP rule shape (payload length, UDP length and checksum computed)
+    satisfies the hypotheses, and a truncated SCHC packet decompresses to a buffer -/
+example :
+    let b0 : TV := .buf ⟨[], .left⟩
+    let r : Rule := ⟨⟨[true, false], .left⟩, .compression,
+      [⟨Gen.IPv6F.VERSION, 4, 0, .bi, .buf ⟨[false, true, true, false], .left⟩, .equal, .notSent⟩,
+       ⟨Gen.IPv6F.TRAFFIC_CLASS, 8, 0, .bi, b0, .ignore, .valueSent⟩,
+       ⟨Gen.IPv6F.FLOW_LABEL, 20, 0, .bi, b0, .ignore, .valueSent⟩,
+       ⟨Gen.IPv6F.PAYLOAD_LENGTH, 16, 0, .bi, b0, .ignore, .compute⟩,
+       ⟨Gen.IPv6F.NEXT_HEADER, 8, 0, .bi, b0, .ignore, .valueSent⟩,
+       ⟨Gen.IPv6F.HOP_LIMIT, 8, 0, .bi, b0, .ignore, .valueSent⟩,
+       ⟨Gen.IPv6F.SRC_ADDRESS, 128, 0, .bi, b0, .ignore, .valueSent⟩,
+       ⟨Gen.IPv6F.DST_ADDRESS, 128, 0, .bi, b0, .ignore, .valueSent⟩,
+       ⟨Gen.UDPF.SOURCE_PORT, 16, 0, .bi, b0, .ignore, .valueSent⟩,
+       ⟨Gen.UDPF.DESTINATION_PORT, 16, 0, .bi, b0, .ignore, .valueSent⟩,
+       ⟨Gen.UDPF.LENGTH, 16, 0, .bi, b0, .ignore, .compute⟩,
+       ⟨Gen.UDPF.CHECKSUM, 16, 0, .bi, b0, .ignore, .compute⟩]⟩
+    computeStackOKb r = true ∧ staticBits r.fields + 40 + 32 * r.fields.length + 8 ≤ 2 ^ 19 ∧
+    (managerDecompress [r] ⟨[true, false, true, true, false, true], .right⟩).map (·.length) = .ok 56 := by
+  refine ⟨by decide +kernel, by decide +kernel, by decide +kernel⟩
 
 /-- non-vacuity: truncated and empty inputs against a rule with variable-length, mapping and LSB fields -/
 example :
